@@ -39,15 +39,21 @@ AtomsFull == {Teq("host", "a"), Teq("host", "b"), Teq("host", "c"), Teq("region"
 \* timestamps on and around group boundaries (GroupDur = 4: offsets 0 = first ns, 1 = second ns,
 \* 2 = middle, 3 = last ns of a group)
 TimesSmall == {3, 4}
+TimesSmall3 == {3, 4, 8}
 TimesMid   == {0, 2, 3, 4, 7, 8}
 TimesFull  == {0, 2, 3, 4, 5, 7, 8, 11, 12, 15}
 
 \* ---- setups -------------------------------------------------------------------------------------
 HashSetup(sk, m, pt, created, salt) ==
-  [type |-> "hash", sk |-> sk, m |-> m, pt |-> pt, created |-> created, split |-> -1, bounds |-> <<>>, salt |-> salt]
+  [type |-> "hash", sk |-> sk, sk2 |-> sk, alter |-> 99, m |-> m, pt |-> pt, created |-> created, split |-> -1,
+   bounds |-> <<>>, salt |-> salt]
+\* ALTER MEASUREMENT .. SHARDKEY sk2 once the groups of `created' with an index below `alter' exist
+AlterSetup(sk, sk2, alter, m, pt, created, salt) ==
+  [type |-> "hash", sk |-> sk, sk2 |-> sk2, alter |-> alter, m |-> m, pt |-> pt, created |-> created, split |-> -1,
+   bounds |-> <<>>, salt |-> salt]
 RangeSetup(sk, bounds, created, split) ==
-  [type |-> "range", sk |-> sk, m |-> Len(bounds) + 1, pt |-> Len(bounds) + 1, created |-> created, split |-> split,
-   bounds |-> bounds, salt |-> 0]
+  [type |-> "range", sk |-> sk, sk2 |-> sk, alter |-> 99, m |-> Len(bounds) + 1, pt |-> Len(bounds) + 1, created |-> created,
+   split |-> split, bounds |-> bounds, salt |-> 0]
 
 ShardKeys == {<<>>, <<"host">>, <<"region">>, <<"host", "region">>}
 K1(h) == << <<"host", h>> >>
@@ -55,37 +61,46 @@ K2(h, r) == << <<"host", h>>, <<"region", r>> >>
 BoundsFor(sk) == IF sk = <<"host">> THEN {<< K1("b") >>, << K1("b"), K1("c") >>}
                  ELSE {<< K1("b") >>, << K2("a", "b"), K2("b", "a") >>}
 RangeKeys == {<<"host">>, <<"host", "region">>}
+AlterPairs == {<< <<"host">>, <<"region">> >>, << <<"host">>, <<"host", "region">> >>, << <<"host", "region">>, <<"host">> >>,
+               << <<"region">>, <<>> >>, << <<>>, <<"host">> >>}
+AlterSetups(m, pt, salts) == {AlterSetup(p[1], p[2], 1, m, pt, {0, 1}, salt) : p \in AlterPairs, salt \in salts}
 
 SetupsQuick ==
   {HashSetup(sk, m, m, {0, 1}, salt) : sk \in ShardKeys, m \in {1, 2, 3}, salt \in {0, 1}}
   \cup UNION {{RangeSetup(sk, b, {0, 1}, s) : b \in BoundsFor(sk), s \in {-1, 0}} : sk \in RangeKeys}
+  \cup AlterSetups(3, 3, {0})
 
 \* for the two-value alphabet
 SetupsQuick2 ==
   {HashSetup(sk, m, m, {0, 1}, 0) : sk \in ShardKeys, m \in {2, 3}}
   \cup {RangeSetup(<<"host">>, << K1("b") >>, {0, 1}, 0)}
   \cup {RangeSetup(<<"host", "region">>, b, {0, 1}, 0) : b \in {<< K1("b") >>, << K2("a", "b"), K2("b", "a") >>}}
+  \cup {AlterSetup(<<"host">>, <<"region">>, 1, 3, 3, {0, 1}, 0), AlterSetup(<<"host", "region">>, <<"host">>, 1, 2, 2, {0, 1}, 0)}
 
 SetupsThorough ==
   {HashSetup(sk, m, m, {0, 1, 3}, salt) : sk \in ShardKeys, m \in {1, 2, 3, 4}, salt \in {0, 1, 2}}
   \cup {HashSetup(sk, 2, 4, {0}, 1) : sk \in ShardKeys}
   \cup UNION {{RangeSetup(sk, b, {0, 1}, s) : b \in BoundsFor(sk), s \in {-1, 0, 1}} : sk \in RangeKeys}
+  \cup AlterSetups(3, 3, {0, 1}) \cup AlterSetups(2, 4, {0})
 
 SetupsThorough2 ==
-  {HashSetup(sk, m, m, {0, 1}, salt) : sk \in ShardKeys, m \in {1, 2, 3, 4}, salt \in {0, 1, 2}}
+  {HashSetup(sk, m, m, {0, 1}, salt) : sk \in ShardKeys, m \in {2, 3, 4}, salt \in {0, 1}}
   \cup {RangeSetup(<<"host">>, << K1("b") >>, {0, 1}, s) : s \in {-1, 0, 1}}
   \cup {RangeSetup(<<"host", "region">>, b, {0, 1}, s) : b \in {<< K1("b") >>, << K2("a", "b"), K2("b", "a") >>}, s \in {-1, 0, 1}}
+  \cup AlterSetups(3, 3, {0})
 
 SetupsExport ==
   {HashSetup(sk, m, 4, {0, 1, 3}, 0) : sk \in ShardKeys, m \in {2, 3, 4}}
   \cup {HashSetup(sk, m, m, {1}, 0) : sk \in ShardKeys, m \in {1, 8}}
   \cup UNION {{RangeSetup(sk, b, {0, 1}, s) : b \in BoundsFor(sk), s \in {-1, 0, 1}} : sk \in RangeKeys}
+  \cup AlterSetups(3, 4, {0}) \cup AlterSetups(4, 4, {0})
 
 SetupsExportQuick ==
   {HashSetup(sk, 3, 4, {0, 1, 3}, 0) : sk \in ShardKeys}
   \cup {HashSetup(sk, 4, 4, {1}, 0) : sk \in ShardKeys}
   \cup UNION {{RangeSetup(sk, b, {0, 1}, 0) : b \in BoundsFor(sk)} : sk \in RangeKeys}
   \cup {RangeSetup(<<"host">>, << K1("b"), K1("c") >>, {0, 1}, -1)}
+  \cup AlterSetups(3, 4, {0})
 
 \* ---- simulation: a few random trees per step ----------------------------------------------------
 \* (parameterised by the step so that TLC does not cache them as constants)
@@ -105,7 +120,8 @@ Sanitize(c, uo) ==
   ELSE IF c.k = "par" THEN [k |-> "par", e |-> Sanitize(c.e, uo)]
   ELSE IF uo /\ IsTime(c) THEN Fgt(1)
   ELSE c
-SimConds(x) == {Sanitize(TLCEval(RandTree(MaxLevel, x + j)), FALSE) : j \in 1..3}
+\* (one choice for the last step: in -simulate mode Export prints every generated successor)
+SimConds(x) == {Sanitize(TLCEval(RandTree(MaxLevel, x + j)), FALSE) : j \in 1..(IF x >= Depth - 1 THEN 1 ELSE 3)}
 
 Export == (n = Depth) => PrintT(<<"TRACE", ToJson(hist)>>)
 =============================================================================
